@@ -35,6 +35,8 @@ class ListWorld:
             e_.path_state.setdefault('gc_allocs', []).append(r)
             return r.f[W.rix['reference']].get(e_)
         e.model(r'^(laythe_core::)?(hooks::)?GcHooks::manage_obj$', m_manage_obj)
+        # temporary roots do not change what the list operations compute (their discipline is C05.K3 / list_growth_protects)
+        e.model(r'^(laythe_core::)?(hooks::)?GcHooks::(push_root|pop_roots)$', lambda e_, a, c: UNIT)
         # offsets from the real code
         self.len_off = conc(e.call(P.lookup('get_vector_len_offset'), [], None)) if False else None
 
